@@ -38,20 +38,27 @@ class TMolecules(TSpec):
         rot = f"_Rotation.random({n}, random_state=7)"
         if model.get(f"{name}_rotations") == "identity":
             rot = f"_Rotation.identity({n})"
+        if model.get(f"{name}_rotations") == "quarter_turn_x":
+            rot = f"_Rotation.from_matrix(np.array([[[1., 0, 0], [0, 0, -1], [0, 1, 0]]] * {n}))"
         return f"_Molecules(_generic_array(({n}, 3), 'real') * 3.1 + 4.0, {rot}{cols})"
 
     def cases(self):
         return [self]
 
     def candidates(self, name):
-        """counterexample search: all rotations of the batch are the identity (keeps the query linear)"""
+        """counterexample search: all rotations of the batch are the identity / a quarter turn about the first axis
+        (rational entries keep the query linear; the second one does not commute with a quarter turn about the third)"""
         i = z3.Int("cand_i")
-        extra = []
-        for a in range(3):
-            for b in range(3):
-                f = z3.Function(f"{name}_rot_m{a}{b}", z3.IntSort(), z3.RealSort())
-                extra.append(z3.ForAll([i], f(i) == (1 if a == b else 0)))
-        return [(extra, {f"{name}_rotations": "identity"})]
+        out = []
+        for label, mat in (("identity", ((1, 0, 0), (0, 1, 0), (0, 0, 1))),
+                           ("quarter_turn_x", ((1, 0, 0), (0, 0, -1), (0, 1, 0)))):
+            extra = []
+            for a in range(3):
+                for b in range(3):
+                    f = z3.Function(f"{name}_rot_m{a}{b}", z3.IntSort(), z3.RealSort())
+                    extra.append(z3.ForAll([i], f(i) == mat[a][b]))
+            out.append((extra, {f"{name}_rotations": label}))
+        return out
 
 
 class TLoader(TSpec):
